@@ -586,7 +586,10 @@ func (v *visitor) ConditionalNode(node *ast.ConditionalNode) reflect.Type {
 		return v.error(node.Cond, "non-bool expression (type %v) used as condition", c)
 	}
 
-	t1 := v.visit(node.Exp1)
+	t1 := c
+	if node.Exp1 != node.Cond { // `a ?: b` shares one node, see ast.Walk
+		t1 = v.visit(node.Exp1)
+	}
 	t2 := v.visit(node.Exp2)
 
 	if t1 == nil && t2 != nil {
